@@ -6,8 +6,10 @@
      state machine followed by fasthttp's ResponseHeader) has the status, the body and, name by name, the
      handler-set fields of the final response net/http sends (Spec/NetHttpRW.v, validated against the real
      net/http on every harness case).
-   It is FALSE of the code as it is: four witnesses below (findings late-writeheader, late-header-mutation,
-   singleton-header-collapse, content-type-on-304); it is proved under exactly the guards that exclude them.
+   It is FALSE of the code as it is: two witnesses below (findings singleton-header-collapse, content-type-on-304);
+   it is proved under exactly the guards that exclude them.  (Two further defects found here, late-writeheader and
+   late-header-mutation, were repaired in /repo by 8ad8bae: the writer now commits status and header snapshot at the
+   first Write/Flush/non-1xx WriteHeader; their witnesses are now inside the theorem and in the harness corpus.)
 
    Full statement (request side): convert_request q = spec_read_request q on every field.  FALSE for every request
    (Host stays in r.Header): C36_convert_request_equal_refuted.  Proved: request line, protocol numbers, body,
@@ -15,16 +17,15 @@
 From FH Require Import Model.Base Gen.GenC36 Spec.NetHttpRW Model.Adaptor Proof.AdaptorProof.
 Open Scope N_scope.
 
-(* For ALL handler programs over WriteHeader / Header().Add,Set,Del / Write / Flush with valid status codes and
-   header names free of CR/LF: if the program does not touch the header or the status between the moment net/http
-   commits the header and the first Flush (late_free), does not give Content-Type / Content-Encoding / Server two
-   values or an empty one (singletons_ok) and does not set Content-Type on a 304 (no_ct_on_304), then the adaptor's
-   final response equals net/http's: same status, same body (none for HEAD, 1xx, 204, 304), and for every field
-   name outside Date / Content-Length / Connection / Transfer-Encoding / Trailer the same values in the same order.
-   Informational WriteHeader calls, repeated fields, Set-Cookie, values with CR/LF or surrounding blanks,
-   WriteHeader after WriteHeader, anything after Flush are all inside the theorem. *)
+(* For ALL handler programs over WriteHeader / Header().Add,Set,Del / Write / Flush, in ANY order, with valid status
+   codes and header names free of CR/LF: if the committed header map does not give Content-Type / Content-Encoding /
+   Server two values or an empty one (singletons_ok) and does not carry Content-Type on a 304 (no_ct_on_304), then the
+   adaptor's final response equals net/http's: same status, same body (none for HEAD, 1xx, 204, 304), and for every
+   field name outside Date / Content-Length / Connection / Transfer-Encoding / Trailer the same values in the same
+   order.  Informational WriteHeader calls, repeated fields, Set-Cookie, values with CR/LF or surrounding blanks,
+   WriteHeader after Write, header mutations after the commit, anything after Flush are all inside the theorem. *)
 Theorem C36_final_response_equal_guarded : forall head p,
-  valid_prog p -> names_ok p -> late_free p = true ->
+  valid_prog p -> names_ok p ->
   singletons_ok (rw_frozen (rw_run p)) -> no_ct_on_304 p ->
   adaptor_panics p = false /\
   m_status (adaptor_resp head p) = m_status (spec_resp head p) /\
@@ -36,13 +37,10 @@ Print Assumptions C36_final_response_equal_guarded.
 (* the guards are needed: one witness per guard (each is a finding confirmed on the real code) *)
 Theorem C36_final_response_equal_refuted :
   (exists p, valid_prog p /\ names_ok p /\ ~ resp_agree false p) /\
-  ~ resp_agree false late_status_witness /\ ~ resp_agree false late_header_witness /\
-  (late_free singleton_witness = true /\ ~ resp_agree false singleton_witness) /\
-  (late_free ct304_witness = true /\ ~ resp_agree false ct304_witness).
+  ~ resp_agree false singleton_witness /\ ~ resp_agree false ct304_witness.
 Proof.
-  split; [exists late_status_witness; exact late_status_refuted|].
-  split; [apply late_status_refuted|]. split; [apply late_header_refuted|].
-  split; [split; apply singleton_refuted | split; apply ct304_refuted].
+  split; [exists singleton_witness; exact singleton_refuted|].
+  split; [apply singleton_refuted | apply ct304_refuted].
 Qed.
 Print Assumptions C36_final_response_equal_refuted.
 
@@ -88,7 +86,7 @@ Definition ex_prog : prog :=
    HAdd (s2b "Set-Cookie") (s2b "k=v"); HAdd (s2b "Set-Cookie") (s2b "k=w"); WriteHeader 201; WriteHeader 500;
    Write (s2b "he"); Flush; HSet (s2b "X-Late") (s2b "z"); Write (s2b "llo")].
 Example C36_ex_guards_hold :
-  late_free ex_prog = true /\ m_status (adaptor_resp false ex_prog) = 201%Z
+  m_status (adaptor_resp false ex_prog) = 201%Z
   /\ m_body (adaptor_resp false ex_prog) = s2b "hello"
   /\ f_get (m_fields (adaptor_resp false ex_prog)) (s2b "X-A") = [s2b "1"; s2b "2"]
   /\ f_get (m_fields (spec_resp false ex_prog)) (s2b "X-A") = [s2b "1"; s2b "2"]
@@ -99,8 +97,9 @@ Proof. vm_compute. repeat split; reflexivity. Qed.
 Example C36_ex_b22 : m_status (adaptor_resp false [WriteHeader 103; WriteHeader 201; Write (s2b "hi")]) = 201%Z
   /\ m_body (adaptor_resp false [WriteHeader 103; WriteHeader 201; Write (s2b "hi")]) = s2b "hi".
 Proof. vm_compute. split; reflexivity. Qed.
-Example C36_ex_late : m_status (adaptor_resp false late_status_witness) = 404%Z /\ m_status (spec_resp false late_status_witness) = 200%Z
-  /\ f_get (m_fields (adaptor_resp false late_header_witness)) (s2b "X-A") = [s2b "1"]
+(* the repaired late-commit witnesses: the adaptor now agrees with net/http *)
+Example C36_ex_late : m_status (adaptor_resp false late_status_witness) = 200%Z /\ m_status (spec_resp false late_status_witness) = 200%Z
+  /\ f_get (m_fields (adaptor_resp false late_header_witness)) (s2b "X-A") = []
   /\ f_get (m_fields (spec_resp false late_header_witness)) (s2b "X-A") = [].
 Proof. vm_compute. repeat split; reflexivity. Qed.
 Definition ex_req : sreq :=
